@@ -227,6 +227,18 @@ func init() {
 				}
 				return
 			}
+			var ak struct {
+				A      bool `json:"all_kinds_before_close"`
+				Cached bool `json:"cached"`
+				How    int  `json:"dropped_how"`
+			}
+			if json.Unmarshal(ctx.Replay, &ak) == nil && ak.A {
+				ctx.Case(ak, "", "all-kinds-recorded-before-close", "")
+				if f := c07Kinds(ak.Cached, ak.How); f != "" {
+					ctx.Fail("recorded_before_close_is_delivered_once_and_live_scopes_stay", f, ak, nil)
+				}
+				return
+			}
 			var cl struct {
 				Closer bool `json:"closable_reporter_stays_open"`
 				Cached bool `json:"cached"`
@@ -304,6 +316,14 @@ func init() {
 			ctx.Case(cs, "", "close-does-not-affect-other-scopes", "")
 			if f := c07Others(k%2 == 1, k%4 < 2, k/4); f != "" {
 				ctx.Fail("closing_a_scope_never_affects_another", f, cs, nil)
+			}
+		}
+		// every kind of metric of a closed subscope is delivered once
+		for k := 0; k < 6; k++ {
+			cs := map[string]interface{}{"all_kinds_before_close": true, "cached": k%2 == 1, "dropped_how": k / 2}
+			ctx.Case(cs, "", "all-kinds-recorded-before-close", "")
+			if f := c07Kinds(k%2 == 1, k/2); f != "" {
+				ctx.Fail("recorded_before_close_is_delivered_once_and_live_scopes_stay", f, cs, nil)
 			}
 		}
 		// the reporter shared by all scopes implements io.Closer: a subscope's Close leaves it open
